@@ -170,10 +170,18 @@ def gen_output_card(rng):
         sv = rng.choice(["TT", "TF", "FT", "FF", "TT"])
         th["RenScaleVar"] = sv[0] == "T"
         th["FactScaleVar"] = sv[1] == "T"
-    pools = cards.gen_pools(rng, th, ob)
+    big = (not nnlo) and rng.random() < 0.07
+    if big:
+        # many observables with many points (different lengths, duplicates) at leading order:
+        # archives spanning several tar records, long kinematics lists
+        th["PTO"] = 0
+        th.pop("PTODIS", None)
+    pools = cards.gen_pools(rng, th, ob, nx=6 if big else 4, nq=5 if big else 4)
     n = cards.wchoice(rng, [(1, 3), (2, 4), (3, 2)])
     if nnlo:
         n = 1
+    if big:
+        n = rng.randint(4, 7)
     names = cards.gen_obs_names(rng, th, ob, n, wild=0.0)
     if nnlo:
         names = [rng.choice(["F2_light", "FL_light", "F2_total", "F3_light"])]
@@ -185,7 +193,9 @@ def gen_output_card(rng):
         npts = cards.wchoice(rng, [(0, 0.8), (1, 4), (2, 3), (3, 1.5)])
         if nnlo:
             npts = 1 if not cards.is_xs(name) else 0
-        pts = cards.gen_points(rng, pools, name, npts, th, plant=False) if npts else []
+        if big:
+            npts = rng.randint(3, 18)
+        pts = cards.gen_points(rng, pools, name, npts, th, plant=big) if npts else []
         obs.append([name, pts])
     return {"theory": th, "obs": ob, "observables": obs}
 
